@@ -17,6 +17,7 @@ mod c12;
 mod c13;
 mod c14;
 mod c15;
+mod c16;
 mod c20;
 mod gen;
 mod dicts;
@@ -45,6 +46,7 @@ fn main() {
         "c11-record" => c11::record(rest),
         "c06-run" => c06::run(rest),
         "c20-run" => c20::run(rest),
+        "c16-run" => c16::run(rest),
         "c07-replay" => c07::replay(rest),
         "c07-record" => c07::record(rest),
         "c09-record" => c09::record(rest),
